@@ -41,7 +41,7 @@ import os
 from collections import Counter
 
 from hv.common import rng_for
-from hv.proc import CaseDir, compiled_paths, hy_script, python
+from hv.proc import CaseDir, child_problem, compiled_paths, hy_script, python, skip_gate
 
 ID = "C16"
 LEVEL = "exploration"
@@ -57,9 +57,9 @@ RULE = ("generated modules with eval-when-compile / eval-and-compile / do-mac fo
         "Three modules share one pair of child processes (each module is one evaluation). "
         "Non-trivial = >= 2 staging forms, at least one of them inside a function, byte-code path detected; "
         "distinct by module text.")
-FLOOR = {"quick": 100, "thorough": 150}
+FLOOR = {"quick": 40, "thorough": 150}
 BUDGET = {"quick": 35, "thorough": 420}
-CASE_TIMEOUT = 120
+CASE_TIMEOUT = 120      # > 2 children x 50 s
 NEEDS_EVENTS = True     # events = STAGE log lines read back
 ANCHORS = []   # the mechanisms run in child processes; in-process line probes cannot see them.
                # Reach is shown instead by what the children report (Compiling <path>, sys.argv, STAGE log).
@@ -570,7 +570,8 @@ def cases(seed, tier, shard, nshards):
         k += 1
         # every 4th case is a script run twice with `hy FILE` (one module); the others are
         # BATCH modules imported from source and then from the cache
-        want = 1 if k % 4 == 2 else BATCH
+        # (the gate-bearing FILE class comes first in every shard)
+        want = 1 if k % 4 == 1 else BATCH
         mods = []
         while len(mods) < want:
             rng = rng_for(seed, ID, shard, i)
@@ -776,9 +777,9 @@ def run_case(case):
                 cmd = [hy_script(), paths[0]]
             else:
                 cmd = [python(), drv, src] + [m["modname"] for m in mods]
-            r = cd.run(cmd, env=env, timeout=60)
-            if r["rc"] is None:
-                res.update(ok=None, classes=res["classes"] + ["inconclusive:child-timeout"])
+            r = cd.run(cmd, env=env, timeout=50)
+            if child_problem(r):
+                res.update(ok=None, classes=res["classes"] + [child_problem(r)])
                 return res
             runs.append(r)
         lines, vlines = [], []
@@ -810,9 +811,8 @@ def run_case(case):
     else:
         dumps = [parse_dump(r["out"]) for r in runs]
     if any(d is None for d in dumps):
-        k = [d is None for d in dumps].index(True)
-        res.update(ok=False, n=1, why=f"process {k + 1} produced no dump: rc={runs[k]['rc']} "
-                   f"stderr={runs[k]['err'][-400:]}")
+        # the driver catches every exception: no dump means the interpreter itself died -> skip
+        res.update(ok=None, classes=res["classes"] + ["child-no-dump"])
         return res
     comp = [compiled_paths(r["err"]) for r in runs]
     whys = []
@@ -838,6 +838,10 @@ def run_case(case):
 
 
 def gate(tot, classes, extra, tier):
+    # `classes` is the histogram of the whole run (all shards)
+    lost = skip_gate(tot, classes)
+    if lost:
+        return lost
     if not classes.get("bytecode-path-detected:import"):
         return "bytecode-path-never-detected"
     if not classes.get("bytecode-path-detected:file") and not classes.get("script-not-cached"):
